@@ -150,6 +150,8 @@ def h_dir(ctx, mods, shape):
     # a file of the same name in the cwd must not be picked up instead
     if shape['files'] and not shape.get('cwd_is_dir'):
         w.vfs.add_file('/cwd/f0.bin', b'WRONG FILE FROM THE WORKING DIRECTORY')
+        if len(shape['files']) > 1:
+            w.vfs.add_dir('/cwd/f1.bin')     # a directory of the cwd that happens to be called like a file of the pushed directory
     mtime = ctx.int('pmtime', 1, 2 ** 32 - 1)
     o = w.try_call('push', src, '/sdcard/dd', mtime=mtime)
     ctx.observe('outcome', o.kind())
